@@ -185,7 +185,9 @@ AdrOutcome(m, q) ==
         pwOk == last.pw = 15 \/ TxPowerDbm(r, last.pw) # None
         newPw == IF last.pw = 15 THEN m.cfg.txp ELSE TxPowerDbm(r, last.pw)
         usable == IF IsFixed(r)
-                  THEN drOk /\ (IF DrBw(r, newDr) = 500000
+                  \* (the data rate in force may itself be undefined - the application can set any value -: then no
+                  \* mask is usable)
+                  THEN drOk /\ DrDefined(r, newDr) /\ (IF DrBw(r, newDr) = 500000
                                 THEN \E c \in 64..71 : MaskBit(mask, c)
                                 ELSE Cardinality({c \in 0..63 : MaskBit(mask, c)}) >= 2)
                   ELSE \E i \in 0..15 : MaskBit(mask, i) /\ ChanDefined(m.plan, i)
